@@ -193,6 +193,58 @@ PROPS = {
     trusted_base=["x/crypto keyring and agent client are the underlying agent (modelled as Shim.UAgent; the model is compared with the real keyring's content after every operation)", 'keyid.Unmarshal and cert.Label verdicts per certificate are oracles on the line (C05 / C19 decide them)', 'SHA-256 as map key is taken collision-free; ssh marshalling injective', 'wall-clock seconds are read by the harness just before each call (windows keep a margin of >= 2 s from the clock except in the lapse cases, which sleep 5 s)'],
     assumptions=['known finding F10 (dependency panic on an unexpected reply type) is excluded by the fault styles of the theorems'],
  ),
+ 'C01': dict(
+    group='gensign', only=['gs'], ops=['gs'],
+    klass=lambda c: 'gs:runs' + str(c['args'][1].count(';') + 1) + ':' + ('ok' if 'res=ok' in ((c['model'] or [''])[0]) else 'noSuccess'),
+    modules=['Ysshra.Props.C01', 'Ysshra.Bridge.Gensign'],
+    theorem_files=['Props/C01.lean', 'Bridge/Gensign.lean'],
+    anchors=['gensign/', 'agent/ssh/', 'csr/', 'crypki/common.go'],
+    n=dict(quick=600, thorough=30000),
+    timeout=dict(quick=900, thorough=3400),
+    trivial=lambda c: 'gen:' not in ((c['model'] or [''])[0]),
+    rule="histories of 1..5 runs of the real gensign.Run against one forwarded agent (x/crypto keyring behind a scripted agent served over a Unix socket pair) with 0..4 pre-existing identities (plain keys, foreign certificates, comments that are near-misses of the handler label); per run: policy NONS/NSOK, hard-key flag, login / user / host / IP / transaction-id strings with JSON metacharacters and non-ASCII, key directory states (.pub vs bare, absent, unparsable, directory, another user's key), agent behaviours (honest with / without the key, other key, other data, replayed signature, garbage, empty, failure), 1..4 handlers (regular + scripted accept / reject / panic in Name / Authenticate / Generate / AddCertsToAgent, 0..2 requests), CA replies (0..4 certificates with 0..4 comments, foreign-key certificate, plain key, error, panic), validity one second .. ten years and the uint32 wrap-around ends, key-identifier maps by name in any case or by number, failure reply or connection loss at agent request index 0..8. Compared: error kind, ordered trace of handler / agent / CA events (lifetimes, comments, which key and certificate), challenge length and freshness across the history, final agent identities, the request the CA received (KeyID token tree). Non-trivial = at least one run got past authentication; distinct = distinct argument fields.",
+    trusted_base=['signature verification, key generation and crypto/rand are real in the run and oracles in the model (honest-signer law built into `verifies`)', 'x/crypto agent client/server and keyring', 'mapstructure decoding of the handler configuration (the algorithm-name hook is modelled in the driver)'],
+    assumptions=['unforgeability and unpredictability of the challenge are assumptions (partial): the model pins which verification gates everything'],
+ ),
+ 'C02': dict(
+    group='gensign', only=['gs'], ops=['gs'],
+    klass=lambda c: 'gs:runs' + str(c['args'][1].count(';') + 1) + ':' + ('ok' if 'res=ok' in ((c['model'] or [''])[0]) else 'noSuccess'),
+    modules=['Ysshra.Props.C02', 'Ysshra.Bridge.Gensign'],
+    theorem_files=['Props/C02.lean', 'Bridge/Gensign.lean'],
+    anchors=['gensign/', 'agent/ssh/', 'csr/', 'crypki/common.go'],
+    n=dict(quick=600, thorough=30000),
+    timeout=dict(quick=900, thorough=3400),
+    trivial=lambda c: 'gen:' not in ((c['model'] or [''])[0]),
+    rule="histories of 1..5 runs of the real gensign.Run against one forwarded agent (x/crypto keyring behind a scripted agent served over a Unix socket pair) with 0..4 pre-existing identities (plain keys, foreign certificates, comments that are near-misses of the handler label); per run: policy NONS/NSOK, hard-key flag, login / user / host / IP / transaction-id strings with JSON metacharacters and non-ASCII, key directory states (.pub vs bare, absent, unparsable, directory, another user's key), agent behaviours (honest with / without the key, other key, other data, replayed signature, garbage, empty, failure), 1..4 handlers (regular + scripted accept / reject / panic in Name / Authenticate / Generate / AddCertsToAgent, 0..2 requests), CA replies (0..4 certificates with 0..4 comments, foreign-key certificate, plain key, error, panic), validity one second .. ten years and the uint32 wrap-around ends, key-identifier maps by name in any case or by number, failure reply or connection loss at agent request index 0..8. Compared: error kind, ordered trace of handler / agent / CA events (lifetimes, comments, which key and certificate), challenge length and freshness across the history, final agent identities, the request the CA received (KeyID token tree). Non-trivial = at least one run got past authentication; distinct = distinct argument fields.",
+    trusted_base=['signature verification, key generation and crypto/rand are real in the run and oracles in the model (honest-signer law built into `verifies`)', 'x/crypto agent client/server and keyring', 'mapstructure decoding of the handler configuration (the algorithm-name hook is modelled in the driver)'],
+    assumptions=['fresh key pairs are distinct random draws (crypto/rand); the KeyID clause uses C05'],
+ ),
+ 'C03': dict(
+    group='gensign', only=['gs'], ops=['gs'],
+    klass=lambda c: 'gs:runs' + str(c['args'][1].count(';') + 1) + ':' + ('ok' if 'res=ok' in ((c['model'] or [''])[0]) else 'noSuccess'),
+    modules=['Ysshra.Props.C03', 'Ysshra.Bridge.Gensign'],
+    theorem_files=['Props/C03.lean', 'Bridge/Gensign.lean'],
+    anchors=['gensign/', 'agent/ssh/', 'csr/', 'crypki/common.go'],
+    n=dict(quick=600, thorough=30000),
+    timeout=dict(quick=900, thorough=3400),
+    trivial=lambda c: 'gen:' not in ((c['model'] or [''])[0]),
+    rule="histories of 1..5 runs of the real gensign.Run against one forwarded agent (x/crypto keyring behind a scripted agent served over a Unix socket pair) with 0..4 pre-existing identities (plain keys, foreign certificates, comments that are near-misses of the handler label); per run: policy NONS/NSOK, hard-key flag, login / user / host / IP / transaction-id strings with JSON metacharacters and non-ASCII, key directory states (.pub vs bare, absent, unparsable, directory, another user's key), agent behaviours (honest with / without the key, other key, other data, replayed signature, garbage, empty, failure), 1..4 handlers (regular + scripted accept / reject / panic in Name / Authenticate / Generate / AddCertsToAgent, 0..2 requests), CA replies (0..4 certificates with 0..4 comments, foreign-key certificate, plain key, error, panic), validity one second .. ten years and the uint32 wrap-around ends, key-identifier maps by name in any case or by number, failure reply or connection loss at agent request index 0..8. Compared: error kind, ordered trace of handler / agent / CA events (lifetimes, comments, which key and certificate), challenge length and freshness across the history, final agent identities, the request the CA received (KeyID token tree). Non-trivial = at least one run got past authentication; distinct = distinct argument fields.",
+    trusted_base=['signature verification, key generation and crypto/rand are real in the run and oracles in the model (honest-signer law built into `verifies`)', 'x/crypto agent client/server and keyring', 'mapstructure decoding of the handler configuration (the algorithm-name hook is modelled in the driver)'],
+    assumptions=['the requester agent behaves like the x/crypto keyring'],
+ ),
+ 'C04': dict(
+    group='gensign', only=['gs'], ops=['gs'],
+    klass=lambda c: 'gs:runs' + str(c['args'][1].count(';') + 1) + ':' + ('ok' if 'res=ok' in ((c['model'] or [''])[0]) else 'noSuccess'),
+    modules=['Ysshra.Props.C04', 'Ysshra.Bridge.Gensign'],
+    theorem_files=['Props/C04.lean', 'Bridge/Gensign.lean'],
+    anchors=['gensign/', 'agent/ssh/', 'csr/', 'crypki/common.go'],
+    n=dict(quick=600, thorough=30000),
+    timeout=dict(quick=900, thorough=3400),
+    trivial=lambda c: 'gen:' not in ((c['model'] or [''])[0]),
+    rule="histories of 1..5 runs of the real gensign.Run against one forwarded agent (x/crypto keyring behind a scripted agent served over a Unix socket pair) with 0..4 pre-existing identities (plain keys, foreign certificates, comments that are near-misses of the handler label); per run: policy NONS/NSOK, hard-key flag, login / user / host / IP / transaction-id strings with JSON metacharacters and non-ASCII, key directory states (.pub vs bare, absent, unparsable, directory, another user's key), agent behaviours (honest with / without the key, other key, other data, replayed signature, garbage, empty, failure), 1..4 handlers (regular + scripted accept / reject / panic in Name / Authenticate / Generate / AddCertsToAgent, 0..2 requests), CA replies (0..4 certificates with 0..4 comments, foreign-key certificate, plain key, error, panic), validity one second .. ten years and the uint32 wrap-around ends, key-identifier maps by name in any case or by number, failure reply or connection loss at agent request index 0..8. Compared: error kind, ordered trace of handler / agent / CA events (lifetimes, comments, which key and certificate), challenge length and freshness across the history, final agent identities, the request the CA received (KeyID token tree). Non-trivial = at least one run got past authentication; distinct = distinct argument fields.",
+    trusted_base=['signature verification, key generation and crypto/rand are real in the run and oracles in the model (honest-signer law built into `verifies`)', 'x/crypto agent client/server and keyring', 'mapstructure decoding of the handler configuration (the algorithm-name hook is modelled in the driver)'],
+    assumptions=['fatal runtime errors that recover cannot catch are out of scope'],
+ ),
 }
 
 NOT_APPLICABLE = {}
@@ -285,4 +337,30 @@ MANIFEST_TEXT = {
     design_ref='DESIGN.md §7 C10',
     note=_NOTE + 'x/crypto agent client; known finding F10 for its panic on unexpected reply types.',
     technique='Lean 4 proof (decision logic, frame lemmas over the filter passes) + fault-injecting correspondence'),
+ 'C01': dict(
+    text='Lean theorems over every parameter set, key-directory state, agent behaviour, handler list and world: the selection loop issues nothing and keeps all identities; if nobody authenticates nothing is generated / signed / added and the run reports all-authentications-failed; '
+         'whenever a request is generated, the CA called or the agent added to, the first handler in order that authenticated was selected, and for the regular handler: policy NONS, no hardware key, a registered key, and a signature by the forwarded agent over the fresh challenge of this call that verifies under it, recorded before anything is issued; challenge = next index of the random source. '
+         'Every statement of Run / Authenticate / challengePubKey / lookupPubKeyFile is regenerated and pinned; the model is compared with the real Run + regular handler over scripted agents.',
+    design_ref='DESIGN.md §7 C01',
+    note=_NOTE + 'unforgeability and unpredictability are assumptions built into the `verifies` oracle (partial).',
+    technique='Lean 4 proof (invariant over the handler loop, decision logic) + trace-level correspondence'),
+ 'C02': dict(
+    text='Lean theorems: every request the regular handler produces has exactly one principal (the login name), the configured validity, the default extension set, the key slot of the requested algorithm (refused when none), a key drawn fresh for this request (never a registered key, never reused); '
+         'its KeyID encodes and decodes (C05 round trip, all strings) to the stated attributes. KeyID / CSR literals and the default extension set are regenerated and pinned; the request the CA receives is compared field by field.',
+    design_ref='DESIGN.md §7 C02',
+    note=_NOTE + 'key generation and crypto/rand are oracles (fresh draws are distinct indices).',
+    technique='Lean 4 proof (decision logic + C05 round trip) + correspondence on the recorded signing request'),
+ 'C03': dict(
+    text='Lean theorems: lifetime = (v mod 2^32 + 3600) mod 2^32 is finite and >= v for v in 1s..10y (sharp: wraps to 0 at 2^32-3600); the private key and every certificate add carry that lifetime, the same key and the certificate label; '
+         'identities without the handler label (near-miss comments included) survive AddCertsToAgent whether it succeeds or fails at any request (induction over refresh and add loops); a run in which nobody authenticates leaves every identity. '
+         'Generation replacement and usability are checked on the real agent by correspondence (final identity sets).',
+    design_ref='DESIGN.md §7 C03',
+    note=_NOTE + 'x/crypto keyring semantics for the requester agent.',
+    technique='Lean 4 proof (arithmetic, induction over the refresh/add loops) + correspondence on agent contents'),
+ 'C04': dict(
+    text='Lean theorems: for runs of the regular handler the result kind is a function of the first failing step (no authentication → all-auth-failed; generate → CSR / configuration error; CA error → signer error; CA panic → panic; agent failure in AddCertsToAgent → agent error) and success iff every step succeeded; '
+         'no certificate is added unless a CA call for the same key succeeded earlier in the trace; the model has no crash outcome (recover pinned in the regenerated Run). Faults at every agent request index, CA errors / panics and panics in every handler method are injected into the real Run.',
+    design_ref='DESIGN.md §7 C04',
+    note=_NOTE + 'fatal runtime errors that recover cannot catch are out of scope.',
+    technique='Lean 4 proof (case analysis of Run, trace ordering) + fault-injection correspondence'),
 }
